@@ -893,8 +893,14 @@ func (e *Engine) selectOp(fr *frame, instr *ssa.Select) Value {
 		}
 	}
 	n := len(cands)
-	if !instr.Blocking {
-		n++ // default
+	definite := 0
+	for _, c := range cands {
+		if !c.timer {
+			definite++
+		}
+	}
+	if !instr.Blocking && definite == 0 {
+		n++ // default is taken only when no case is certainly ready
 	}
 	if n == 0 {
 		panic(e.unsupported("select would block forever (no ready case)"))
